@@ -15,6 +15,7 @@ import LA.Drive.Trad
 import LA.Drive.Pass
 import LA.Drive.ZipEnc
 import LA.Drive.Unicode
+import LA.Drive.Entry
 open LA
 
 def engines : List (String × Engine) := [
@@ -32,7 +33,8 @@ def engines : List (String × Engine) := [
   ("trad", LA.TradDrive.engine),
   ("pass", LA.PassDrive.engine),
   ("zipenc", LA.ZipEncDrive.engine),
-  ("uni", LA.Unicode.engine)
+  ("uni", LA.Unicode.engine),
+  ("ent", LA.Entry.engine)
 ]
 
 partial def loop (e : Engine) (h : IO.FS.Stream) (out : IO.FS.Stream) (s : e.σ) : IO Unit := do
